@@ -142,8 +142,17 @@ def pair(prefix, k):
     return _produce("pair", "%s|%s" % (prefix, k))
 
 
-# ---- nested call for concurrency scenarios (C09) -------------------------------------------
+# ---- nested calls for concurrency scenarios (C09) (outer is defined below nest) -------------------------------------------
 @m.memento_function(version="n1")
 def nest(case_id):
     REC.hit("nest", case_id)
     return [produce(case_id), 1]
+
+
+@m.memento_function(version="o1")
+def outer(case_id):
+    """Reaches `produce` through a one-element batch of `nest` only."""
+    REC.hit("outer", case_id)
+    a = produce2(case_id)
+    b = nest.call_batch([{"case_id": case_id}])
+    return [a, b[0]]
